@@ -1,5 +1,17 @@
+//! vh-dynck: checks of the dynamic schema builder (C33) and of the request
+//! checking work bound (C11). Dispatch on argv[1] = property id.
+
+mod c11;
+mod c33;
+
 fn main() {
     let id = std::env::args().nth(1).unwrap_or_default();
-    println!("INCONCLUSIVE property={id} reason=vh-dynck has no check for this property yet");
-    std::process::exit(2);
+    match id.as_str() {
+        "C33" => c33::main(),
+        "C11" => c11::main(),
+        _ => {
+            println!("INCONCLUSIVE property={id} reason=vh-dynck has no check for this property");
+            std::process::exit(2);
+        }
+    }
 }
